@@ -245,7 +245,12 @@ func (f *File) Read(p []byte) (int, error) {
 			}
 			return 0, io.EOF
 		}
-		n := copy(p, S.StdinData[S.StdinPos:])
+		// like a terminal in canonical mode (and like a user typing): one line per read, unless the input is a pipe
+		rest := S.StdinData[S.StdinPos:]
+		if i := strings.IndexByte(rest, '\n'); i >= 0 && !S.StdinPipe {
+			rest = rest[:i+1]
+		}
+		n := copy(p, rest)
 		S.StdinPos += n
 		return n, nil
 	}
